@@ -111,6 +111,27 @@ UNITS = [
       ("SPECIALTAG_SHAPE_OK", "({int ok=1; for(unsigned t=0;t<65536;t++){unsigned e=(t>=16384&&t<32768)?1:0; if((unsigned)(SPECIALTAG(t)?1:0)!=e) ok=0;} ok;})"),
       ("MKSPECIALTAG_SHAPE_OK", "({int ok=1; for(unsigned t=0;t<65536;t++){unsigned e=(t<16384)?t+16384:(t<32768?t:DFTAG_NULL); if((unsigned)(uint16)MKSPECIALTAG(t)!=e) ok=0;} ok;})"),
       ("UINT16_FAIL", "(uint16)FAIL"), ("SIZEOF_DD_T", "sizeof(dd_t)")], []),
+    # C20: integer widths and documented maxima used by the limits model
+    ("Limits", '#include "hdf_priv.h"\n#include "hfile_priv.h"\n#include "vg_priv.h"\n#include "mfhdf.h"\n#include <stdint.h>\n',
+     ["INT32_MAX", "INT16_MAX", "UINT16_MAX", "H4_MAX_NC_OPEN", "H4_MAX_GR_NAME", "DFREF_NONE",
+      ("SIZEOF_OFFSET", "sizeof(((filerec_t *)0)->f_end_off)"), ("SIZEOF_DD_OFFSET", "sizeof(((dd_t *)0)->offset)"),
+      ("SIZEOF_DD_LENGTH", "sizeof(((dd_t *)0)->length)"), ("SIZEOF_NDDS", "sizeof(((ddblock_t *)0)->ndds)"),
+      ("SIZEOF_NVELT", "sizeof(((VGROUP *)0)->nvelt)"), ("SIZEOF_IVSIZE", "sizeof(((DYN_VWRITELIST *)0)->ivsize)"),
+      ("SIZEOF_VSNAME", "sizeof(((VDATA *)0)->vsname)"), ("SIZEOF_VSCLASS", "sizeof(((VDATA *)0)->vsclass)"),
+      ("SIZEOF_MAXREF", "sizeof(((filerec_t *)0)->maxref)")], []),
+    # C15: shared record codecs + the second run-length coder (dfrle.c). Its limits are integer literals in the C text,
+    # not macros, so they are MEASURED by calling the real DFCIrle on probe rows (never hand-copied).
+    ("Codecs", '#include "hdf_priv.h"\n#include "%s/dfrle.c"\n' % HS +
+     'static uint8 rl_in[600], rl_out[1400];\n'
+     'static int rl_first_run(void) { memset(rl_in, 7, 600); DFCIrle(rl_in, rl_out, 600); return rl_out[0] & 127; }\n'
+     'static int rl_first_lit(void) { for (int i = 0; i < 600; i++) rl_in[i] = (uint8)(i % 251); DFCIrle(rl_in, rl_out, 600); return rl_out[0]; }\n'
+     'static int rl_min_run(void) { for (int n = 1; n < 10; n++) { memset(rl_in, 7, n); rl_in[n] = 9; DFCIrle(rl_in, rl_out, n + 1); if (rl_out[0] & 128) return n; } return -1; }\n'
+     'static int rl_run_flag(void) { memset(rl_in, 7, 5); DFCIrle(rl_in, rl_out, 5); return rl_out[0] & ~5; }\n',
+     [("DFRLE_MAX_RUN", "rl_first_run()"), ("DFRLE_MAX_LIT", "rl_first_lit()"), ("DFRLE_MIN_RUN", "rl_min_run()"), ("DFRLE_RUN_FLAG", "rl_run_flag()"),
+      "DFTAG_NT", "DFTAG_SDD", "DFTAG_SD", "DFTAG_NDG", "DFTAG_SDG", "DFTAG_ID", "DFTAG_LD", "DFTAG_RIG", "DFTAG_RI", "DFTAG_CI", "DFTAG_LUT",
+      "DFTAG_ID8", "DFTAG_IP8", "DFTAG_RI8", "DFTAG_CI8", "DFTAG_II8", "DFTAG_RLE", "DFTAG_IMC", "DFTAG_NULL",
+      "DFNT_VERSION", "DFNT_UCHAR", "DFNTC_BYTE", "DFNT_NONE", "TBUF_SZ", "H4_MAX_VAR_DIMS",
+      "DFIL_PIXEL", "DFIL_LINE", "DFIL_PLANE", "MFGR_INTERLACE_PIXEL"], []),
     ("Bitvect", '#include "hdf_priv.h"\n#include "%s/bitvect.c"\n' % HS,
      ["BV_DEFAULT_BITS", "BV_CHUNK_SIZE", "BV_BASE_BITS"],
      [("bv_first_zero", "bv_first_zero", "256"), ("bv_bit_value", "bv_bit_value", "8"), ("bv_bit_mask", "bv_bit_mask", "9")]),
@@ -351,7 +372,7 @@ def main():
         digest[fn] = hashlib.sha256(txt.encode()).hexdigest()[:16]
     for rel in ["hdf/src/hfile_priv.h", "hdf/src/hdf.h", "hdf/src/htags.h", "hdf/src/hlimits.h", "hdf/src/hntdefs.h", "hdf/src/crle.c",
                 "hdf/src/crle_priv.h", "hdf/src/atom.c", "hdf/src/bitvect.c", "hdf/src/bitvect_priv.h", "hdf/src/vg_priv.h", "hdf/src/hcomp.h", "hdf/src/hfile.c", "hdf/src/hfiledd.c", "hdf/src/mfan_priv.h", "hdf/src/mfan.c", "hdf/src/vgp.c", "hdf/src/vg.c",
-                "hdf/src/mcache.c", "hdf/src/mcache_priv.h", "hdf/src/mfgr.c", "hdf/src/mfgr.h", "hdf/src/hbitio.c", "hdf/src/hbitio_priv.h", "hdf/src/cnbit.c", "hdf/src/cnbit_priv.h", "hdf/src/cskphuff.c", "hdf/src/cskphuff_priv.h", "hdf/src/dfkswap.c", "hdf/src/dfknat.c", "hdf/src/dfconv.c",
+                "hdf/src/mcache.c", "hdf/src/mcache_priv.h", "hdf/src/dfrle.c", "hdf/src/dfsd.c", "hdf/src/dfgr.c", "hdf/src/dfr8.c", "hdf/src/mfgr.c", "mfhdf/src/hdfsds.c", "mfhdf/src/cdf.c", "hdf/src/hdf_priv.h", "hdf/src/mfgr.c", "hdf/src/mfgr.h", "hdf/src/hbitio.c", "hdf/src/hbitio_priv.h", "hdf/src/cnbit.c", "hdf/src/cnbit_priv.h", "hdf/src/cskphuff.c", "hdf/src/cskphuff_priv.h", "hdf/src/dfkswap.c", "hdf/src/dfknat.c", "hdf/src/dfconv.c",
                 "hdf/src/mfgr_priv.h", "hdf/src/vattr.c", "hdf/src/mfgr.c", "mfhdf/src/mfsd.c", "mfhdf/src/attr.c", "mfhdf/src/cdf.c"]:
         p = os.path.join(repo, rel)
         if os.path.exists(p):
